@@ -193,7 +193,11 @@ def gen_request(rng, idx, opts):
             m.digest_user = user
             m.headers.append((b"Authorization", [b"Digest username=\"" + user + b"\", realm=\"r\", nonce=\"n1\", uri=\"/\", response=\"00ff\""]))
         else:
-            m.headers.append((b"Authorization", [b"Basic " + base64.b64encode(rand_token(rng, 1, 4) + b":" + rand_token(rng, 0, 4))]))
+            # RFC 7617: the user-id has no colon, the password may contain any number of them (the split is at the FIRST colon)
+            pw = rand_token(rng, 0, 4)
+            if rng.random() < 0.4:
+                pw = b":".join([pw] + [rand_token(rng, 0, 3) for _ in range(rng.randint(1, 2))])
+            m.headers.append((b"Authorization", [b"Basic " + base64.b64encode(rand_token(rng, 1, 4) + b":" + pw)]))
     body_kind = "none"
     m.body = b""
     if m.method in (b"POST", b"PUT", b"PATCH") or rng.random() < 0.1:
